@@ -50,7 +50,7 @@ CHECKS = {
     "C11": dict(
         category="exploration", design_ref="DESIGN.md 5/C11, 4.7",
         technique="deterministic simulation with fault injection: corrupt_datain / sense_payload faults applied to a live simulated target's well-formed responses (biased to embedded length/count fields), deterministic step meter (sys.settrace line events) as bounded-liveness oracle",
-        text="Bounded liveness: every facade call and every direct decode of the corrupted bytes must return or raise within 20000 + 400*len(buffer) source-line steps of library code, a budget >25x the steepest honest decoder, so a non-terminating loop is a reproducible budget violation (not a wall-clock kill) and a merely slower decoder is not. Seeded corruption of every data-in format incl. all PR IN service actions, VPD pages, READ ELEMENT STATUS with volume tags, READ CD layouts; the sense-code space is swept under the meter.",
+        text="Bounded liveness: every facade call and every direct decode of the corrupted bytes must return or raise within 20000 + 400*len(buffer) source-line steps of library code, a budget about 4x the steepest honest decode of corrupt data (one descriptor per byte), so a non-terminating loop is a reproducible budget violation (not a wall-clock kill) and a merely slower decoder is not. Seeded corruption of every data-in format incl. all PR IN service actions, VPD pages, READ ELEMENT STATUS with volume tags, READ CD layouts; the sense-code space is swept under the meter.",
         note="Sampling of a 2**(8n) space: the bias towards zero/maximal/inconsistent length fields is what finds loops; what decoders return for corrupt data is not judged. Buffers up to 16 KiB."),
     "C18": dict(
         category="exploration", design_ref="DESIGN.md 5/C18",
